@@ -251,6 +251,10 @@ def run(ctx, rep):
     idkinds.check_calls(ctx, rep, 'R05.j', ['server::state::'])
     idkinds.check_map_keys(ctx, rep, 'R05.j', ['server::state::'])
 
+    # ------------------------------------------------------------ R05.n replay applies a removal of permissions
+    from props.c09 import replay_permissions
+    replay_permissions(ctx, rep, 'R05.n')
+
     # ------------------------------------------------------------ R05.m the journal decoders accept what the handlers journal
     journalled_decoders_do_not_validate(ctx, rep, 'R05.m')
 
